@@ -373,6 +373,10 @@ class Render:
         k = e["e"]
         if k == "int":
             v = int.from_bytes(bytes(e["b"]), "little")
+            if e.get("plain"):
+                return str(v)          # a bare literal: stays const (a cast expression is not)
+            if e.get("tyv"):
+                return "%s.(%d)" % (e["tyv"], v)
             if e.get("usize"):
                 return "usize.(%d)" % v
             return "%s.(%d)" % (self.ty_of_jty(e["ty"]), v)
@@ -385,9 +389,11 @@ class Render:
         if k == "un":
             return "(%s%s)" % ({"neg": "-", "bnot": "~", "not": "!"}[e["op"]], self.expr(e["x"]))
         if k == "cast":
-            return "%s.(%s)" % (self.ty_of_jty(e["ty"]), self.expr(e["x"]))
+            return "%s.(%s)" % (e.get("tyv") or self.ty_of_jty(e["ty"]), self.expr(e["x"]))
+        if k == "type":
+            return e.get("text") or self.ty_of_jty(e["ty"])
         if k == "call":
-            return "%s(%s)" % (e["f"], ", ".join(self.expr(a) for a in e["args"]))
+            return "%s(%s)" % (e["f"], ", ".join(self.expr(a) for a in e.get("cargs", []) + e["args"]))
         if k == "idx":
             return "%s[%s]" % (self.expr(e["a"]), self.expr(e["i"]))
         if k == "fld":
@@ -429,7 +435,7 @@ class Render:
         k = s["s"]
         if k == "let":
             t = tuple(s["ty"]) if isinstance(s["ty"], (list, tuple)) else s["ty"]
-            tn = "usize" if s.get("usize") else tyname(self.tup(t))
+            tn = "usize" if s.get("usize") else (t if isinstance(t, str) else tyname(self.tup(t)))
             return ["%s : %s %s %s;" % (s["n"], tn, "=" if s["mut"] else ":", self.indent(self.expr(s["x"])))]
         if k == "set":
             return ["%s = %s;" % (self.place(s["l"]), self.indent(self.expr(s["x"])))]
@@ -477,7 +483,14 @@ class Render:
         return t
 
     def fn(self, f):
-        ps = ", ".join("%s: %s" % (p["n"], tyname(self.tup(p["ty"]))) for p in f["params"])
+        cps = ["comptime %s: %s" % (p["n"], p["kind"]) for p in f.get("cparams", [])]
+        ps = ", ".join(cps + ["%s: %s" % (p["n"], p["ty"] if isinstance(p["ty"], str) else tyname(self.tup(p["ty"])))
+                              for p in f["params"]])
+        if isinstance(f.get("ret"), str):
+            return "%s :: (%s) -> %s %s" % (f["name"], ps, f["ret"], self.block(f["body"], 1))
+        return self.fn_plain(f, ps)
+
+    def fn_plain(self, f, ps):
         ret = " -> %s" % tyname(self.tup(f["ret"])) if f["ret"] is not None else ""
         return "%s :: (%s)%s %s" % (f["name"], ps, ret, self.block(f["body"], 1))
 
@@ -488,7 +501,8 @@ class Render:
 def strip(x):
     """the abstract syntax without the renderer's annotations (types of lets / prints etc.)"""
     if isinstance(x, dict):
-        return {k: strip(v) for k, v in x.items() if k not in ("ty", "mut", "flat", "elem", "usize", "ret") or (k == "ty" and x.get("e") in ("int", "cast", "rec"))}
+        return {k: strip(v) for k, v in x.items() if k not in ("ty", "mut", "flat", "elem", "usize", "ret", "kind", "text", "plain")
+                or (k == "ty" and x.get("e") in ("int", "cast", "rec", "type"))}
     if isinstance(x, (list, tuple)):
         return [strip(v) for v in x]
     return x
